@@ -706,6 +706,14 @@ func (v *v40) hold(fname string, slot int, lf *lf40) {
 	v.held[fname][slot] = lf
 }
 
+// holderName names the owner that sequences a request.
+func (v *v40) holderName(op *op40) string {
+	if op.lockSequenced() {
+		return fmt.Sprintf("c%d/%s", op.lo.c.idx, op.lo.name)
+	}
+	return fmt.Sprintf("c%d/%s", op.o.c.idx, op.o.name)
+}
+
 func (v *v40) holderOf(op *op40) *retx {
 	if op.lockSequenced() {
 		return &op.lo.last
@@ -812,6 +820,7 @@ func (v *v40) runTracked(op *op40, allowDup bool) {
 		return
 	}
 	*h = retx{op: op, req: req, reply: p.enc, status: st, present: true}
+	v.remember(v.holderName(op), st, p.enc)
 	if f := v.follower; f != nil && f.p != nil && f.p.finished() {
 		// The owner's next request, which waited behind the OPEN.
 		v.follower = nil
@@ -1174,10 +1183,20 @@ func (v *v40) differentRequestCheck(h *retx, alt *op40, via, detail string) {
 	v.sit("diff-content-40-" + xdrOpName(alt.kind) + "-" + via)
 	switch {
 	case bytes.Equal(p.enc, h.reply):
-		v.violate(fmt.Sprintf("C19 different-request-answered-with-cached-reply v=4.0 op=%s via=%s", xdrOpName(alt.kind), via),
-			fmt.Sprintf("%s: %s is not a retransmission of %s (the arguments differ) but was answered with that request's cached reply (%s)", detail, alt, h.op, statusName(st)),
-			map[string]any{"cached_request": opNames(decodeArgs(h.req)), "cached_reply": fmt.Sprintf("%x", h.reply)})
+		// Treated as a (false) retransmission of the owner's last
+		// request and answered with that request's reply: allowed, the
+		// server only has to compare operation type and state ID.
+		v.sit("false-retry-answered-with-originals-cached-reply-40")
 	case st == nfsv4.NFS4_OK:
+		if whose, known := v.okReplies[string(p.enc)]; known {
+			how := "other-owner"
+			if whose == v.holderName(alt) {
+				how = "older-reply"
+			}
+			v.violate(fmt.Sprintf("C19 different-request-answered-with-cached-reply v=4.0 op=%s via=%s", xdrOpName(alt.kind), how),
+				fmt.Sprintf("%s: %s was answered with a reply that was given earlier to %s and is not the cached reply of the owner's last request", detail, alt, whose), nil)
+			break
+		}
 		v.violate(fmt.Sprintf("C19 same-seqid-other-content-accepted v=4.0 op=%s via=%s", xdrOpName(alt.kind), via),
 			fmt.Sprintf("%s: %s was executed", detail, alt), nil)
 		v.abort = true
@@ -1923,9 +1942,10 @@ func (v *v40) checkRefused(o *oo40) {
 		}
 	}
 	if servedLockOwnerCache {
-		v.violate("C19 different-request-answered-with-cached-reply v=4.0 op=LOCK via=lock-owner-seqid-in-new-lock",
-			fmt.Sprintf("%s has an in-order open-owner seqid (so it is not a retransmission) and asks for a lock on %s; it was answered NFS4_OK with the lock state ID that its lock-owner holds on another file, i.e. with the cached reply of the lock-owner's previous LOCK, and nothing was locked", &alt, alt.fname),
-			map[string]any{"reply": fmt.Sprintf("%x", p.enc)})
+		// The lock-owner treats the request as a retransmission of its
+		// last LOCK and serves that request's reply: allowed (see
+		// differentRequestCheck); the open-owner consumes its seqid.
+		v.sit("false-retry-answered-with-originals-cached-reply-40")
 	}
 	if st == nfsv4.NFS4_OK && !servedLockOwnerCache {
 		v.violate(fmt.Sprintf("C19 invalid-request-executed v=4.0 what=%s op=%s", what, alt.kind),
